@@ -305,6 +305,31 @@ def server_scenarios(rng, eng, msgs, n, tier):
         res = "closed" if bad is None else "failed"
         exp = f"SV {res} CALLS {len(calls)}" + "".join(" " + x for x in calls) + f" WRITTEN {xb(written)}"
         out.append((case, exp, bad or "good", nreq))
+    # long pipelines: far more request octets in flight than any per-connection buffer a server might keep (8 KiB, 64 KiB),
+    # delivered in chunks that do not respect request boundaries
+    for k, (nreq, csize) in enumerate([(150, 512), (150, 4096), (300, 8192), (120, 100000), (200, 777)] if tier == "quick" else
+                                      [(150, 512), (150, 4096), (300, 8192), (120, 100000), (200, 777), (600, 1000), (600, 65536), (1000, 3000)]):
+        r = rng.fork(f"long{k}")
+        reqs = [msgs[r.below(len(msgs))] for _ in range(nreq)]
+        answers = [msgs[r.below(len(msgs))] for _ in range(nreq)]
+        stream = b"".join(q[1] for q in reqs)
+        chunks = [stream[i:i + csize] for i in range(0, len(stream), csize)]
+        case = f"SV g {rs(chunks)} {ws([])} {nreq} " + " ".join("A " + a[0][2:] for a in answers)
+        exp = f"SV closed CALLS {nreq}" + "".join(f" [{q[2]}]" for q in reqs) + f" WRITTEN {xb(b''.join(a[1] for a in answers))}"
+        out.append((case, exp, "long-pipeline", nreq))
+    # an answer larger than the 1 MiB the server is prepared to READ: the limit is about incoming frames, whatever the
+    # handler returns (up to the 2^24 the wire can carry) must be written in full
+    for k, n in enumerate([0x100000 - 28 - 4, 0x100000 - 28, 0x100000 + 4] if tier == "quick" else [0x100000 - 28 - 4, 0x100000 - 28, 0x100000 + 4, 0x400000]):
+        r = rng.fork(f"big{k}")
+        reqs = [msgs[r.below(len(msgs))] for _ in range(3)]
+        small = [msgs[r.below(len(msgs))] for _ in range(2)]
+        ln = 8 + n
+        avp = gen.be(1011, 4) + b"\0" + gen.be(ln, 3) + bytes(n) + b"\0" * ((4 - ln % 4) % 4)
+        bigframe = bytes([1]) + gen.be(20 + len(avp), 3) + bytes([0]) + gen.be(0x110, 3) + gen.be(4, 4) + gen.be(1, 4) + gen.be(2, 4) + avp
+        ans_tok = ["A " + small[0][0][2:], f"A g NEW 110 4 0 1 2 1 ADDAVP 3f3 - 0 L octz {hx(n)}", "A " + small[1][0][2:]]
+        case = f"SV g {rs([b''.join(q[1] for q in reqs)])} {ws([])} 3 " + " ".join(ans_tok)
+        exp = "SV closed CALLS 3" + "".join(f" [{q[2]}]" for q in reqs) + f" WRITTEN {xb(small[0][1] + bigframe + small[1][1])}"
+        out.append((case, exp, "big-answer", 3))
     return out
 
 
